@@ -75,6 +75,10 @@ CLAIMED.update({
             'doubles that deliver 0..2 messages and close themselves at every position relative to message arrival, with a fake '
             'sleep that counts waits: single _close, reset messages once before it, ValueError after close, FIFO drain then stop, '
             'iteration ends quietly, poll never sleeps, blocking receive returns at once when a message is deliverable.', '4/C11'),
+    'C18': ('The real SocketPort/PortServer run on a stream-socket/select model (validated against real socket.socketpair() on every '
+            'run): message streams with symbolic contents cut at a SYMBOLIC offset and delivered in every segmentation, then a '
+            'disconnect: exactly the complete messages, quiet end of iteration, port closed, descriptor released; close seen as EOF; '
+            'server fairness/termination; address format/parse with a symbolic port number.', '4/C18'),
 })
 
 PENDING = {}     # id -> reason (not claimed)
